@@ -6,6 +6,7 @@ adjacent Select.Select / Where.Where pair fused) is translated by the real trans
 to the base program's up to the numbering of generated names (or the same exception must be raised).
 """
 import ast
+import itertools
 import sys
 from collections import Counter
 
@@ -110,6 +111,28 @@ def worker(args):
     return stats, bad
 
 
+def shadow_family(backend):
+    """Programs in which an inner lambda is followed, in the same enclosing lambda body, by a later use of the enclosing
+    parameter - at every later-use position - so that every shadowing renaming has something to disturb."""
+    a = qgen.ALPHA[backend]
+    S, T = f"e.{a.primary}('A')", f"e.{a.secondary}('B')"
+    inner_e = [f"{S}.Select(lambda j1: j1.pt()).Sum()", f"{S}.Where(lambda j1: j1.pt() > 1).Count()", f"{S}.SelectMany(lambda j1: j1.tags()).Count()"]
+    later_e = [f"{T}.Count()", f"{S}.Count()"]
+    out = []
+    for i, l in itertools.product(inner_e, later_e):
+        out += [f"ds.Select(lambda e: ({i} + {l}))", f"ds.Select(lambda e: ({i}, {l}))", f"ds.Select(lambda e: {{'a': {i}, 'b': {l}}})",
+                f"ds.Select(lambda e: ({i} if {l} > 0 else {l}))", f"ds.Select(lambda e: ({l} if {i} > 0 else {l}))",
+                f"ds.Where(lambda e: {i} > 0 and {l} > 0).Select(lambda e: {l})"]
+    inner_j = ["j1.tags().Select(lambda j2: j2 * 2).Sum()", "j1.parts().Where(lambda j2: j2.pt() > 0).Count()", f"{T}.Select(lambda j2: j2.pt()).Sum()",
+               "j1.parts().Select(lambda j2: j2.tags().Select(lambda j3: j3).Sum()).Sum()"]
+    later_j = ["j1.eta()", "j1.nTrk()"]
+    for i, l in itertools.product(inner_j, later_j):
+        out += [f"ds.Select(lambda e: {S}.Select(lambda j1: ({i} + {l})))", f"ds.SelectMany(lambda e: {S}).Select(lambda j1: ({i}, {l}))",
+                f"ds.Select(lambda e: {S}.Select(lambda j1: ({l} if {i} > 0 else {l})))", f"ds.Select(lambda e: {S}.Where(lambda j1: {i} > 0 and {l} > 0).Count())",
+                f"ds.Select(lambda e: {S}.Select(lambda j1: DeltaR({i}, {l}, {l}, {i})))"]
+    return out
+
+
 def main(tier="quick"):
     rep = Report(PROP, tier)
     known = F.load(PROP)
@@ -124,6 +147,7 @@ def main(tier="quick"):
         for k in range(1, kmax + 1):
             for term in g.queries(k):
                 texts.append(qgen.render(term))
+        texts += shadow_family(backend)
         nprog += len(texts)
         for i in range(0, len(texts), 8):
             work.append((backend, texts[i:i + 8], pool, mds))
